@@ -24,7 +24,7 @@ func init() { fw.Register(c18{}) }
 func (c18) Meta() fw.Meta {
 	return fw.Meta{
 		ID: "C18",
-		Rule: "case = one file (1-3 archives) holding values that need 17 significant digits, huge/tiny magnitudes, +-Inf, NaN-valued points, +-0, stale laps written at an earlier clock, possibly never-written archives; view and view-raw are run through the real binary inside a stable wall-clock second with -archive all/each id, windows {default, narrow, past, degenerate, from==until unaligned to the coarser steps}, -header on/off, -sort on/off. " +
+		Rule: "case = one file (1-3 archives) holding values that need 17 significant digits, huge/tiny magnitudes, +-Inf, NaN-valued points, +-0, stale laps written at an earlier clock, possibly never-written archives; view and view-raw are run through the real binary inside a stable wall-clock second with -archive all/each id, windows {default, narrow, past, degenerate, from==until unaligned to the coarser steps, reaching beyond the viewer's clock with slots stamped ahead of it}, -header on/off, -sort on/off, process time zone {default, Tokyo, New York, UTC, Kolkata}. " +
 			"oracle: view = header text (rendered independently from the layout) iff -header, then for each selected archive in order the points of FetchFromArchive at that second, in time order, times in UTC layout, values parsing back bit-exactly (NaN==NaN); " +
 			"view-raw = the N physical slots of each selected archive (harness' own parse of the file bytes) restricted to from < t <= until (no lower bound for from 0, until extended by that archive's step when from == until), in physical order or stably sorted by time with -sort; " +
 			"cross relation: every non-NaN view record inside the range appears in view-raw with identical time and value. " +
@@ -32,7 +32,7 @@ func (c18) Meta() fw.Meta {
 		Assumptions: []string{
 			"view reads the wall clock: the run is accepted only when the second did not change across the process (stable second); discarded runs are counted",
 		},
-		Obligations: []string{"view_runs", "view_raw_runs", "view_records_checked", "raw_records_checked", "header_checked", "no_header_checked", "sorted_raw", "unsorted_raw", "special_values_printed", "inf_printed", "stale_lap_in_raw", "degenerate_window", "single_archive_selection", "cross_relation_checked"},
+		Obligations: []string{"view_runs", "view_raw_runs", "view_records_checked", "raw_records_checked", "header_checked", "no_header_checked", "sorted_raw", "unsorted_raw", "special_values_printed", "inf_printed", "stale_lap_in_raw", "degenerate_window", "single_archive_selection", "cross_relation_checked", "non_default_tz_runs", "slots_stamped_ahead_of_clock"},
 		Workers:     12,
 	}
 }
@@ -108,6 +108,28 @@ func (c18) Run(c *fw.Ctx) {
 		}
 		db.UpdatePointsForArchive(pts, ai, u32(wnow))
 	}
+	// slots stamped AHEAD of the viewer's clock (the writer's clock was ahead): view-raw must show them when the
+	// requested range reaches that far
+	future := c.Index%5 == 3
+	if future {
+		ai := len(l.Archs) - 1
+		if neverWritten >= 0 {
+			ai = neverWritten - 1
+			if ai < 0 {
+				ai = 0
+			}
+		}
+		if ai >= neverWritten || neverWritten < 0 {
+			a := l.Archs[ai]
+			ahead := wnow + int64(a.Step)*int64(2+r.Intn(int(a.Points)/2+1))
+			var pts []wt.Point
+			for i := 0; i < 1+r.Intn(4); i++ {
+				pts = append(pts, wt.Point{Time: u32(ahead - int64(i)*int64(a.Step)), Value: wt.Value(4242 + float64(i))})
+			}
+			db.UpdatePointsForArchive(pts, ai, u32(ahead))
+			c.Count("slots_stamped_ahead_of_clock", 1)
+		}
+	}
 	db.Sync()
 	db.Close()
 	_, raw, _, err := rawOfFile(path)
@@ -146,11 +168,24 @@ func (c18) Run(c *fw.Ctx) {
 	if window != "default" && from < 1 {
 		from, until = 1, maxI64(until, 1)
 	}
+	if future {
+		// a range reaching beyond the viewer's clock
+		window = "into-the-future"
+		from = wnow - r.Int63n(a0.Ret()/2+1)
+		until = wnow + l.MaxRet() + int64(r.Intn(1000))
+	}
+	// the local time zone of the process must not matter: times are printed in UTC
+	zone := []string{"", "TZ=Asia/Tokyo", "TZ=America/New_York", "TZ=UTC", "TZ=Asia/Kolkata"}[r.Intn(5)]
+	if zone != "" {
+		c.Env.State["cli_env"] = []string{zone}
+		defer delete(c.Env.State, "cli_env")
+		c.Count("non_default_tz_runs", 1)
+	}
 	flags := []string{"-src-base", filepath.Dir(path), "-src", "file.wsp", "-archive", strconv.Itoa(sel), fmt.Sprintf("-header=%v", header)}
 	if window != "default" {
 		flags = append(flags, "-from", tsArg(from), "-until", tsArg(until))
 	}
-	sc := fw.J{"layout": l.String(), "archive": sel, "header": header, "sort": sorted, "window": window, "from": from, "until": until, "never_written_archive": neverWritten}
+	sc := fw.J{"layout": l.String(), "archive": sel, "header": header, "sort": sorted, "window": window, "from": from, "until": until, "never_written_archive": neverWritten, "tz": zone, "future_stamped_slots": future}
 
 	// ---- view
 	res, ok := runCLIStable(c, nil, append([]string{"view"}, flags...)...)
